@@ -72,6 +72,8 @@ MEMBERS = {
         'C06_fill_array_read_as_mcnp',
         'C06_parse_fill_kw_flat',
         'C06_tokenize_fill_array',
+        'C06_float_spelling_facts',
+        'C06_fill_array_read_as_mcnp_param',
     ],
     'C06_family_linked': [
         'C06_lattice_end_to_end_linked',
@@ -117,8 +119,10 @@ TRUSTED = [
 ASSUMPTIONS = [
     'integers of --lattice / FILL are spelled [+-]?[0-9]+ (the model\'s int() '
     'is narrower than Python\'s: no blanks, underscores, non-ASCII digits); '
-    'FILL parameter tokens are float spellings that end in a digit or a point '
-    'and contain no colon (tr_token); inf/nan spellings excluded',
+    'FILL parameter tokens are spellings the model\'s to_float accepts '
+    '(is_float_spelling; that they end in a digit or a point and hold no '
+    'colon is now proved: C06_float_spelling_facts); inf/nan/underscore '
+    'spellings are outside the model',
     'C06_square_base_vectors: the two surfaces of a pair are distinct '
     '(spacing <> 0) and the normals of the pairs are linearly independent; '
     'otherwise the code raises ZeroDivisionError (modelled, tied, proved: '
